@@ -63,6 +63,20 @@ theorem equallySplit_spec (n p : Nat) (hn : 1 ≤ n) (hp : 1 ≤ p) :
     · have := hmem x hx; omega
     · simp at hx; omega
 
+/-- the first `p` splitters (all but the final `n`) are valid indices of a range of length `n` -/
+theorem equallySplit_inner_lt (n p : Nat) (hn : 1 ≤ n) (hp : 1 ≤ p) :
+    ∀ i, i < p → ∃ x : Int, (equallySplit n p)[i]? = some x ∧ 0 ≤ x ∧ x ≤ (n : Int) - 1 := by
+  have hc : (0 : Int) ≤ (n : Int).tdiv p := Int.tdiv_nonneg (by omega) (by omega)
+  obtain ⟨l, hl, hlen, hmem, _, _⟩ :=
+    equallySplit_go_spec (n : Int) ((n : Int).tdiv p) ((n : Int).tmod p) (by omega) hc p 0 0 [] (by omega) (by omega)
+  have he : equallySplit n p = l ++ [(n : Int)] := by
+    unfold equallySplit; simpa using hl
+  intro i hi
+  have hil : i < l.length := by omega
+  refine ⟨l[i], ?_, ?_⟩
+  · rw [he, List.getElem?_append_left hil, List.getElem?_eq_getElem hil]
+  · have := hmem l[i] (List.getElem_mem _); omega
+
 /-- DESIGN §5 D3: for `n = 0` the clamping `start = n - 1` yields the rank -1 -/
 theorem equallySplit_zero_witness : equallySplit 0 2 = [0, -1, 0] := by decide
 
